@@ -1380,6 +1380,68 @@ def run_result_aliasing(block, ctx):
 # clause: in-domain families that other properties construct (their seams), here only for "does not raise, returns
 # values of the documented kind, leaves its arguments alone"
 
+# -- call histories on ONE Interpolation object: observers must not leave anything behind ---------------------------
+
+IH_TABLES = {
+    "three_roots": ([-2.0, -1.0, 0.0, 1.0, 2.0], lambda x: (x + 1.3) * (x - 0.2) * (x - 1.4)),
+    "wave": ([0.0, 1.0, 2.0, 3.0, 4.0, 5.0, 6.0], lambda x: math.sin(1.7 * x) + 0.1),
+}
+IH_OPS = {
+    "three_roots": [("root", -2, 2), ("root", -1, 1), ("root", 1, 2), ("root", -2, -1), ("root", 2, -2), ("root", 0, 0),
+                    ("minmax", -2, 0), ("minmax", 0, 2), ("call", 0.7), ("derivative", -0.4)],
+    "wave": [("root", 0, 6), ("root", 1, 3), ("root", 3, 5), ("root", 5, 6), ("root", 2, 4.5), ("minmax", 0, 2),
+             ("minmax", 2, 4), ("minmax", 0, 6), ("call", 3.3), ("derivative", 5.1)],
+}
+
+
+def _ih_do(it, op):
+    try:
+        if op[0] == "root":
+            return ("ok", it.root(op[1], op[2]))
+        if op[0] == "minmax":
+            return ("ok", it.minmax(op[1], op[2]))
+        if op[0] == "call":
+            return ("ok", it(op[1]))
+        return ("ok", it.derivative(op[1]))
+    except Exception as ex:
+        return ("exc", type(ex).__name__)
+
+
+def check_interp_history(case):
+    """All operations are observers: after any history on ONE object each answer is the answer of a fresh object."""
+    xs, fn = IH_TABLES[case["table"]]
+    ys = [fn(x) for x in xs]
+    it = Interpolation(list(xs), list(ys))
+    for k, op in enumerate(case["history"]):
+        op = tuple(op)
+        got = _ih_do(it, op)
+        exp = _ih_do(Interpolation(list(xs), list(ys)), op)
+        if got != exp:
+            return ["Interpolation[%s]: %r after the calls %r gives %r, on a fresh object %r"
+                    % (case["table"], op, case["history"][:k], got, exp)]
+    return []
+
+
+def interp_history_cases(tier):
+    import itertools
+    depth = 4 if tier == "thorough" else 3
+    return [{"table": t, "history": [list(o) for o in h]} for t in IH_TABLES for d in range(2, depth + 1)
+            for h in itertools.product(IH_OPS[t], repeat=d)]
+
+
+def run_interp_history(block, ctx):
+    for case in block:
+        ctx.evals += 2 * len(case["history"])
+        ctx.transitions += len(case["history"])
+        ctx.traces += 1
+        ctx.nt_count += 1
+        for msg in check_interp_history(case):
+            ctx.viol(case, msg, site="interpolation_history")
+        ctx.outcome((case["table"], case["history"][-1][0]))
+    ctx.states += len(block)
+    ctx.sample(block[0])
+
+
 def imported_cases():
     from . import c14
     out = []
@@ -1393,6 +1455,22 @@ def imported_cases():
                 continue
             for j in range(-12, 13):
                 out.append(("minor", {"q": q, "e": round(e, 6), "dt": j * 14.3 + 0.76}))
+    # root / extremum searches of C12's tables (symmetric tables: the derivative is exactly zero at the mid-point)
+    from . import c12
+    for name, (xs, fn, pts) in c12.ROOT_TABLES.items():
+        for kind in ("root", "minmax"):
+            for xl in pts[:8]:
+                for xh in pts[:8]:
+                    out.append(("interp", {"table": name, "kind": kind, "xl": xl, "xh": xh}))
+    for ys in ([-4, 5, 4, 6, 4], [4, 5, 4, 5, 4], [0.5 - 8, 0.5 - 1, 0.5, 1.5, 8.5], [14, 0, 0, 2, 18]):
+        for kind in ("root", "minmax"):
+            for (xl, xh) in ((-2, 2), (-1, 1), (-2, 0), (0, 2), (-2, 1), (-1.5, 1.5)):
+                out.append(("interp", {"xs": [-2, -1, 0, 1, 2], "ys": ys, "kind": kind, "xl": xl, "xh": xh}))
+    # three bodies on one meridian in every order of their declinations (arcs parallel and anti-parallel)
+    import itertools
+    for ra, ra2 in ((174.0, 174.0), (10.0, 190.0), (0.0, 0.0)):
+        for d1, d2, d3 in itertools.permutations([-84.0, -74.0, -34.0, 0.5, 12.0, 67.0], 3):
+            out.append(("line", {"ra": [ra, ra2, ra], "dec": [d1, d2, d3]}))
     # civil -> Moslem on every day of January and December (where its year estimate is corrected)
     for y in range(623, 3001):
         for mo in (1, 12):
@@ -1433,6 +1511,34 @@ def check_imported(item):
                     % (c["q"], c["e"], c["dt"], type(ex).__name__, ex)]
         if not all_finite(r):
             return ["Minor(q=%r, e=%r) at T%+g d returned %r" % (c["q"], c["e"], c["dt"], canon(r))]
+        return []
+    if kind == "interp":
+        from . import c12
+        if "table" in c:
+            xs, fn, _ = c12.ROOT_TABLES[c["table"]]
+            ys = [float(fn(x)) for x in xs]
+        else:
+            xs, ys = c["xs"], c["ys"]
+        try:
+            it = Interpolation([float(x) for x in xs], [float(y) for y in ys])
+            r = it.root(c["xl"], c["xh"]) if c["kind"] == "root" else it.minmax(c["xl"], c["xh"])
+        except ValueError:
+            return []                       # documented refusals (no sign change, equal limits, too many iterations)
+        except Exception as ex:
+            return ["Interpolation(%r, %r).%s(%r, %r) raised %s: %s" % (list(xs), ys, c["kind"], c["xl"], c["xh"],
+                                                                      type(ex).__name__, ex)]
+        if not all_finite(r):
+            return ["Interpolation.%s returned %r for %r" % (c["kind"], r, c)]
+        return []
+    if kind == "line":
+        from pymeeus.Coordinates import straight_line
+        args = [Angle(v) for pair in zip(c["ra"], c["dec"]) for v in pair]
+        try:
+            r = straight_line(*args)
+        except Exception as ex:
+            return ["straight_line of three bodies on one meridian %r raised %s: %s" % (c, type(ex).__name__, ex)]
+        if not all_finite(r):
+            return ["straight_line returned %r for %r" % (canon(r), c)]
         return []
     out = []
     for d in range(1, 32):
@@ -1491,6 +1597,8 @@ def clauses(tier):
         Clause("argument_tolerance", chunks(order, 32), run_arg_tolerance, check_arg_tolerance, floor=100, shape="H"),
         Clause("dense_domains", chunks(dense_cases(), 64), run_dense, lambda c: [m for _, m in check_dense(c)],
                floor=5000, shape="H"),
+        Clause("interpolation_history", chunks(interp_history_cases(tier), 32), run_interp_history,
+               check_interp_history, floor=1000, shape="H"),
         Clause("imported_domains", chunks(imported_cases(), 32), run_imported,
                lambda c: [(m[1] if isinstance(m, tuple) else m) for m in check_imported(
                    (c["family"], c["case"] if "case" in c else {"q": c["q"], "e": c["e"], "dt": c["dt"]}))], floor=5000,
